@@ -72,7 +72,7 @@ impl Property for C18 {
             &tc,
             &built.sigs,
             &spec,
-            &RunOpts { max_next: next_budget(&t), want_vars: true, continue_after_error: true, ..Default::default() },
+            &RunOpts { max_next: next_budget(&t), fuel: fuel_for(t.facts.steps), want_vars: true, continue_after_error: true, ..Default::default() },
         );
         if let Some(RealItem::Panic(p)) = &real.ctor {
             out.fail(p.key(), format!("constructor panicked: {p}"));
@@ -86,7 +86,14 @@ impl Property for C18 {
                 out.class("vars-after-error-item");
             }
             match real.items.get(i) {
-                Some(RealItem::Row(_)) => {}
+                // which rows run and what they hold is C01 / C04 / C05's business: once a row
+                // differs from the reference, vars() has nothing to be compared with
+                Some(RealItem::Row(rr)) => {
+                    if row_diff(r, rr, Projection::INPUTS_EXPECTED).is_some() {
+                        out.class("rows-diverged");
+                        break;
+                    }
+                }
                 Some(RealItem::Panic(p)) => {
                     out.fail(p.key(), format!("item {i} panicked: {p}"));
                     return out;
